@@ -130,6 +130,47 @@ PROPS = {
              "Non-trivial = accepted payload with a strict non-empty subset of the fields present or a relationship object without data.",
         assumptions=COMMON_ASSUMPTIONS + ["a panicking call makes the case inapplicable (C05's subject)"],
     ),
+    "C07": dict(
+        regress="TestC07Regress",
+        subs=[
+            dict(test="TestC07Parse", quick=15000, thorough=120000),
+            dict(test="TestC07Raw", quick=10000, thorough=100000),
+        ],
+        fuzz=[dict(target="FuzzC07", seconds=90)],
+        rule="Structured requests over generated coherent schemas: a request description (path of one of the shapes /t, /t/id, /t/id/rel, "
+             "/t/id/relationships/rel or 0-6 odd segments incl. meta/relationships/unknown names/embedded slashes; 0-6 parameters among fields[T], sort, "
+             "include, page[x], filter label/JSON, unknown, empty-valued, repeated, with unknown/duplicate names, '-' rules, nested include paths of "
+             "depth<=4 with prefix-named relationships) is rendered with a random valid percent-encoding; NewURLFromRaw, NewSimpleURL+NewURL and NewParams "
+             "are all called. Oracle from the description: no panic, URL xor error; fragments; resource type / collection flag / relationship of the "
+             "standard shapes; field selection keys in schema, lists duplicate-free subsets of fields+id equal to the valid requested names or all "
+             "fields; include paths are requested valid chains, each valid unextended requested path present; sorting rules only id/attributes, contain "
+             "id, start with the caller's effective valid rules. Raw sub-check: hostile strings and escape mutations (%, %zz, ;, #, //, ...), also on "
+             "incoherent schemas, panic freedom and URL-xor-error only. Thorough adds a 90 s native fuzz campaign over raw strings. "
+             "Non-trivial = >=2 parameters and (repeated parameter or rule, unknown name, empty value, include depth>=2, or string-prefix include names).",
+        assumptions=COMMON_ASSUMPTIONS + [
+            "structural clauses are checked on coherent schemas; incoherent ones only for panic freedom",
+            "when a fields[T] parameter is repeated, any single occurrence may be the one honoured",
+            "sorting rules are compared after cutting at the first id and dropping later repeats of a field",
+        ],
+    ),
+    "C08": dict(
+        regress="TestC08Regress",
+        subs=[
+            dict(test="TestC08FixedPoint", quick=15000, thorough=120000),
+            dict(test="TestC08Metamorphic", quick=10000, thorough=80000),
+        ],
+        rule="Accepted URLs from the structured generator in 'valid' mode (IDs, page values, filter labels and filter strings drawn from the "
+             "reserved-character generator; nested and/or filter trees with large numbers; page[other]; repeated sort/include). Fixed point: String() "
+             "passes strict url.Parse and url.ParseQuery, parses against the same schema, recovers fragments, type, ID, relationship, field sets, sorting "
+             "rules, page parameters (collections), filter label and JSON-equal filter tree, and String() of the result is the same text. Metamorphic: "
+             "the request is re-rendered with differently named parameters permuted, fields/include list items shuffled and empty items inserted (and a "
+             "different percent-encoding); both String() results must be identical. Non-trivial = reserved character in an ID/label/page value/filter "
+             "string or a filter tree of depth>=2 (fixed point); a permutation that changed the parameter list of a URL with >=2 parameters (metamorphic).",
+        assumptions=COMMON_ASSUMPTIONS + [
+            "include is not part of the compared members (String never emits it)", "a missing field-selection entry equals an empty one",
+            "a parser panic or rejection makes the case inapplicable (C07's subject)",
+        ],
+    ),
 }
 
 LEVEL_NOTE = ("Trusted base: Go toolchain and runtime, encoding/json, reflect, rapid v1.3.0, the harness' own generators and "
@@ -137,6 +178,17 @@ LEVEL_NOTE = ("Trusted base: Go toolchain and runtime, encoding/json, reflect, r
               "violation is not a proof.")
 
 MANIFEST_TEXT = {
+    "C07": dict(
+        technique="property-based testing (rapid) from structured request descriptions + raw/mutated strings + native coverage-guided fuzzing (thorough)",
+        engine="rapid + go-native-fuzz",
+        level_text="Exploration: the oracle is computed from the request description, not from re-parsing; three entry points are exercised on every case.",
+        level_note=LEVEL_NOTE,
+    ),
+    "C08": dict(
+        technique="property-based testing (rapid): fixed-point (round-trip) oracle + metamorphic re-rendering",
+        level_text="Exploration: every accepted generated URL goes through String -> strict parse -> re-parse -> String, and through a permuted re-rendering.",
+        level_note=LEVEL_NOTE,
+    ),
     "C05": dict(
         technique="property-based testing (rapid) with JSON-level mutation of valid documents + raw byte/token inputs + native coverage-guided fuzzing (thorough), validity-predicate oracle",
         engine="rapid + go-native-fuzz",
